@@ -18,6 +18,9 @@ func verifQuiesce()
 func verifLiveThreads() int
 func verifAdvanceTime()
 func verifSymbolicClock()
+func verifHelperExit(code int)
+func verifHelperOutput(b []byte)
+func verifHelperState() int
 
 // stub file system (symbolic) / sandbox directory (native); see engine/fs.go
 func verifFSRoot() string                         // the destination directory; creates the sandbox
